@@ -109,6 +109,9 @@ class Case:
             self.d['zone'].append('TXT %s %s' % (n, txt.hex()))
 
     def finish(self):
+        if not self.d['ehlo']:
+            self.d['size'] = -1          # MAIL FROM parameters need EHLO
+            self.d['auth'] = 0
         for lv, lines in self.conf.items():
             key = '%s:filterconf' % lv
             if lines and key not in self.d['files']:
@@ -218,9 +221,9 @@ LOGRE = re.compile(r'^(temporarily )?rejected message to <[^>]*> from <[^>]*> fr
 
 
 def impl_canon(d, r, rcptline):
-    if r.fault:
-        return 'FAULT', None
     facts, sent, logs, after = read_transcript(r, rcptline)
+    if r.fault and facts is None:
+        return 'FAULT-before-rcpt ' + r.fault[:100].replace(' ', '_').replace('\n', '_'), None
     if facts is None:
         return 'NOSESSION ' + (r.stderr or '')[:80].replace(' ', '_').replace('\n', '_'), None
     f = fdict(facts)
@@ -239,6 +242,8 @@ def impl_canon(d, r, rcptline):
             log = ('t' if m.group(1) else 'p') + (m.group(2) or 'null')
     f['_others'] = [x.split(':')[1] for x in before]
     f['_rcpt'] = stored or rcpt_addr(d).hex()
+    if r.fault and after is None:
+        return 'FAULT', f           # the server died while it handled this RCPT TO
     return 'ok %d %s %s' % (acc, hx(sent), log), f
 
 
@@ -269,6 +274,8 @@ def model_tokens(d, f):
 def model_canon(out):
     """the model names the level by number: map through blocktype[]"""
     p = out.split()
+    if p and p[0] == 'FAULT':
+        return 'FAULT'
     if len(p) == 4 and p[0] == 'ok' and p[3] != '-':
         n = int(p[3][1:])
         p[3] = p[3][0] + BLOCKTYPE.get(n, 'null')
